@@ -8,7 +8,7 @@ d=seeded/$name
 [ -f $d/patch.diff ] || { echo "no $d/patch.diff"; exit 2; }
 ids="$@"
 [ -z "$ids" ] && ids=${name%%-*}
-wt=/root/scratch/seed_${name}${OUT:+_x}
+o=${OUT%.txt}; wt=/root/scratch/seed_${name}${o:+_$o}
 git -C /repo worktree remove --force $wt >/dev/null 2>&1
 git -C /repo worktree add --detach $wt HEAD >/dev/null 2>&1 || exit 2
 git -C $wt apply $PWD/$d/patch.diff || { echo "patch does not apply"; git -C /repo worktree remove --force $wt; exit 2; }
